@@ -93,7 +93,14 @@ int main() {
                 out.put(after.first ? 1 : 0); out.put(after.second);
                 continue;
             }
-            if (path == 0) node.ingest_manifest(uri);
+            if (path == 4) {
+                // an earlier manifest for the same chunk id (another expiry: aux whole seconds), then this one
+                auto first = manifest;
+                first.expires_at = std::chrono::system_clock::time_point(std::chrono::nanoseconds(base_ns + hv::g_sys_offset_ns)) + std::chrono::seconds(aux);
+                node.ingest_manifest(protocol::encode_manifest(first));
+                node.ingest_manifest(uri);
+            }
+            else if (path == 0) node.ingest_manifest(uri);
             else if (path == 1) { if (replica) (void)node.receive_chunk(uri, replica->data); }
             else {
                 protocol::AnnouncePayload p{};
